@@ -5,6 +5,7 @@ f5_0:
   ret
   call f22_0
   call f13_0
+  mov wvsv0@GOTPCREL(%rip),%rax
   ret
 .section .text.f5_1,"ax",@progbits
 .globl f5_1
@@ -24,4 +25,5 @@ d_f5_1:
 f5_2:
   ret
   call f5_2
+  mov wvsv0@GOTPCREL(%rip),%rax
   ret
